@@ -10,7 +10,7 @@ import (
 // C05 — cancellation stops runs and flows and is reported as such.
 
 type c05Mon struct {
-	ctx       *vCtx
+	ctx       *vRunCtx
 	cancelled bool
 	calls     int
 	lastEnds  bool // the last callback's outcome ends the reference path
@@ -133,11 +133,14 @@ func (m *c05Mon) finish(err error) {
 	if m.ctx.Err() == vErrDeadline {
 		vCover("deadline-kind")
 	}
+	if m.ctx.Err() == context.Canceled {
+		vCover("real-context")
+	}
 }
 
 func VH_C05_single() {
 	vUnwind(6)
-	m := &c05Mon{ctx: vNewCtx()}
+	m := &c05Mon{ctx: vNewRunCtx("run")}
 	n := c05NewProbe(m, false)
 	_, err := Run(m.ctx, n, NewSharedStore())
 	m.finish(err)
@@ -145,7 +148,7 @@ func VH_C05_single() {
 
 func VH_C05_linear() {
 	vUnwind(6)
-	m := &c05Mon{ctx: vNewCtx()}
+	m := &c05Mon{ctx: vNewRunCtx("run")}
 	k := vParam("nodes", 3)
 	nodes := make([]*c05Probe, k)
 	for i := range nodes {
@@ -162,7 +165,7 @@ func VH_C05_linear() {
 // outer(p0 -> inner(a -> b) -> p3): cancellation inside the inner flow must stop the outer one too
 func VH_C05_nested() {
 	vUnwind(6)
-	m := &c05Mon{ctx: vNewCtx()}
+	m := &c05Mon{ctx: vNewRunCtx("run")}
 	p0 := c05NewProbe(m, true)
 	a := c05NewProbe(m, true)
 	b := c05NewProbe(m, true)
@@ -182,7 +185,7 @@ func VH_C05_nested() {
 // context already done before the run: no callback at all, error matches the context's error
 func VH_C05_predone() {
 	vUnwind(6)
-	m := &c05Mon{ctx: vNewCtx()}
+	m := &c05Mon{ctx: vNewRunCtx("run")}
 	m.ctx.cancel(vNondet[bool]("deadlineKind"))
 	m.cancelled = true
 	which := vChoice("shape", 3)
